@@ -1767,24 +1767,28 @@ def gen_ops_history2(rng):
     def store(delete=None):
         ops.append({"op": "store", "delete": rng.random() < 0.4 if delete is None else delete, "bessel": rng.random() < 0.5})
 
-    if rng.random() < 0.2:          # a store that must fail: nothing or one frame so far
-        if rng.random() < 0.6:
+    only_failing = rng.random() < 0.12   # nothing but a failing store: the constructor's statistics must survive it
+    if rng.random() < 0.2 or only_failing:          # a store that must fail: nothing or one frame so far
+        if rng.random() < 0.7:
             acc(one_frame=True)
         store()
-    for _ in range(rng.choice([1, 2, 3])):
-        acc()
-    for stage in range(rng.choice([1, 1, 2, 3])):
-        store(False if rng.random() < 0.7 else None)
-        if rng.random() < 0.3:
-            store(False)
-        for _ in range(rng.choice([0, 1, 1, 2])):
+    if not only_failing:
+        for _ in range(rng.choice([1, 2, 3])):
             acc()
-    if rng.random() < 0.55:
-        store()
-    elif ops[-1]["op"] != "acc":
-        acc()
+        for stage in range(rng.choice([1, 1, 2, 3])):
+            store(False if rng.random() < 0.7 else None)
+            if rng.random() < 0.3:
+                store(False)
+            for _ in range(rng.choice([0, 1, 1, 2])):
+                acc()
+        if rng.random() < 0.55:
+            store()
+        elif ops[-1]["op"] != "acc":
+            acc()
     init = None
-    if rng.random() < 0.4:
+    if only_failing:
+        init = {"mean": [rng.randint(-8, 8) for _ in range(X)], "std": [rng.choice([1, 2, 3, 5, 8]) for _ in range(X)]}
+    elif rng.random() < 0.4:
         what = rng.choice(["both", "both", "both", "mean", "std"])
         init = {"mean": [rng.randint(-8, 8) for _ in range(X)] if what != "std" else None,
                 "std": [rng.choice([1, 2, 3, 5, 8]) for _ in range(X)] if what != "mean" else None}
